@@ -79,6 +79,7 @@ def add_dyn(tr, repo: Path, spec: dict) -> None:
         d = defs[c]
         bases = [ast.unparse(b) for b in d.bases]
         if bases == ["NamedTuple"]:
+            py2v.NAMEDTUPLE_DYN.add(c)
             fs = []
             for st in d.body:
                 if isinstance(st, ast.Expr) and isinstance(st.value, ast.Constant):
@@ -111,10 +112,25 @@ def add_dyn(tr, repo: Path, spec: dict) -> None:
             if has_d and not (isinstance(a.defaults[i - (len(params) - nd)], ast.Constant) and a.defaults[i - (len(params) - nd)].value is None):
                 bad(init, f"{c}.__init__: default other than None")
             fs.append((tgt.attr, field_type(p.annotation, names), has_d))
-        # __eq__ / __hash__ / __str__ / __repr__ are the only other methods: equality by the stored values
+        # __eq__ / __hash__ / __str__ / __repr__ are the only other methods; __eq__ must be equality of the stored values
+        # between two instances of the class, False against anything else
         for m in d.body:
             if isinstance(m, ast.FunctionDef) and m.name not in ("__init__", "__eq__", "__hash__", "__str__", "__repr__"):
                 bad(m, f"{c}: a method besides __init__, __eq__, __hash__, __str__, __repr__")
+        eq = next((m for m in d.body if isinstance(m, ast.FunctionDef) and m.name == "__eq__"), None)
+        if eq is None:
+            bad(d, f"{c}: no __eq__ (identity is not modelled)")
+        want = [f"self.{f} == other.{f}" for f, _, _ in fs]
+        body_eq = [st for st in eq.body if not (isinstance(st, ast.Expr) and isinstance(st.value, ast.Constant))]
+        ok = (len(body_eq) == 2 and isinstance(body_eq[0], ast.If) and ast.unparse(body_eq[0].test) == f"isinstance(other, {c})"
+              and len(body_eq[0].body) == 1 and isinstance(body_eq[0].body[0], ast.Return) and not body_eq[0].orelse
+              and ast.unparse(body_eq[1]) == "return False")
+        if ok:
+            rv = body_eq[0].body[0].value
+            parts = rv.values if isinstance(rv, ast.BoolOp) and isinstance(rv.op, ast.And) else [rv]
+            ok = [ast.unparse(x) for x in parts] == want
+        if not ok:
+            bad(eq, f"{c}.__eq__ is not equality of the stored values")
         ctors[c] = fs
     for inst, c in singles.items():
         if c not in defs:
@@ -142,6 +158,31 @@ def add_dyn(tr, repo: Path, spec: dict) -> None:
     for c, fs in ctors.items():
         tr.out.append(f"Definition is_O_{c} (x : {NAME}) : bool := match x with O_{c}" + " _" * len(fs) + " => true | _ => false end.")
     tr.out.append(f"Definition opt_obj (x : option {NAME}) : {NAME} := match x with Some v => v | None => O_None end.")
+    # a == b: the classes' __eq__ (equal stored values, same class), tuple equality for the NamedTuples, identity for the
+    # singletons and None, str equality
+    def feq(t, a, b):
+        return {"str": f"str_eqb {a} {b}", ("opt", "str"): f"match {a}, {b} with Some x_, Some y_ => str_eqb x_ y_ | None, None => true | _, _ => false end",
+                "any": f"obj_eqb {a} {b}"}[t]
+    rows_ = []
+    for c, fs in ctors.items():
+        xs = [f"x{i}" for i in range(len(fs))]
+        ys = [f"y{i}" for i in range(len(fs))]
+        conj = " && ".join(f"({feq(t, x, y)})" for (f, t, _), x, y in zip(fs, xs, ys)) or "true"
+        rows_.append(f"| O_{c}" + "".join(" " + x for x in xs) + f", O_{c}" + "".join(" " + y for y in ys) + f" => {conj}")
+    rows_ += ["| O_None, O_None => true", "| O_str x0, O_str y0 => str_eqb x0 y0", "| _, _ => false"]
+    tr.out.append(f"Fixpoint obj_eqb (a b : {NAME}) {{struct a}} : bool :=\nmatch a, b with\n" + "\n".join(rows_) + "\nend.")
+    tr.out.append("Definition any_eqb := obj_eqb.")
+    drows = []
+    for c, fs in ctors.items():
+        rec = [f"x{i}" for i, (f, t, _) in enumerate(fs) if t == "any"]
+        pat = f"| O_{c}" + "".join((f" x{i}" if t == "any" else " _") for i, (f, t, _) in enumerate(fs))
+        if rec:
+            m_ = "O"
+            for x in rec:
+                m_ = f"(Nat.max (obj_depth {x}) {m_})"
+            drows.append(f"{pat} => Datatypes.S {m_}")
+    drows.append("| _ => O")
+    tr.out.append(f"Fixpoint obj_depth (a : {NAME}) : nat :=\nmatch a with\n" + "\n".join(drows) + "\nend.")
 
 
 def classes_with_field(f: str) -> list[str]:
